@@ -409,58 +409,58 @@ FAMILIES = {
                                  dict(nobj=4, caps="CapsB", ops="OpsBuild", num=500, simlen=36),
                                  dict(nobj=5, caps="CapsB", ops="OpsBuild", num=300, simlen=44)]),
                  thorough=dict(mc=[dict(nobj=2, caps="CapsL"), dict(nobj=3, caps="CapsT")],
-                               sim=[dict(nobj=3, caps="Caps3", num=3000, simlen=40), dict(nobj=4, caps="Caps3", num=3000, simlen=50),
-                                    dict(nobj=4, caps="CapsB", ops="OpsBuild", num=3000, simlen=40),
-                                    dict(nobj=5, caps="CapsB", ops="OpsBuild", num=3000, simlen=50),
+                               sim=[dict(nobj=3, caps="Caps3", num=1500, simlen=40), dict(nobj=4, caps="Caps3", num=1500, simlen=50),
+                                    dict(nobj=4, caps="CapsB", ops="OpsBuild", num=1500, simlen=40),
+                                    dict(nobj=5, caps="CapsB", ops="OpsBuild", num=1500, simlen=50),
                                     dict(nobj=6, caps="CapsB", ops="OpsBuild", num=3000, simlen=60)])),
     "weak": dict(ops="OpsWeakQ", menu="MenuPlain", profile="weak",
                  invs=["TypeOK", "MC_C01", "MC_C02", "MC_C03", "MC_C04", "MC_C05", "MC_C06", "MC_C08"],
                  quick=dict(mc=[dict(nobj=2, caps="CapsW")],
                             sim=[dict(nobj=2, caps="Caps2", num=500, simlen=25, ops="OpsWeak"), dict(nobj=3, caps="Caps3", num=500, simlen=30, ops="OpsWeak")]),
                  thorough=dict(mc=[dict(nobj=2, caps="CapsW", ops="OpsWeak"), dict(nobj=3, caps="CapsQ", ops="OpsWeak3")],
-                               sim=[dict(nobj=3, caps="Caps3", num=3000, simlen=40, ops="OpsWeak"), dict(nobj=4, caps="Caps3", num=3000, simlen=50, ops="OpsWeak")])),
+                               sim=[dict(nobj=3, caps="Caps3", num=1500, simlen=40, ops="OpsWeak"), dict(nobj=4, caps="Caps3", num=1500, simlen=50, ops="OpsWeak")])),
     "dtor10": dict(ops="OpsDtor", menu="MenuC10", profile="dtor10",
                    invs=["MC_C10", "MC_C16"],
                    quick=dict(mc=[dict(nobj=2, caps="CapsQ", menu="MenuC10Q")],
                               sim=[dict(nobj=3, caps="Caps3", num=600, simlen=30)]),
                    thorough=dict(mc=[dict(nobj=2, caps="CapsQ")],
-                                 sim=[dict(nobj=3, caps="Caps3", num=3000, simlen=40), dict(nobj=4, caps="Caps3", num=2000, simlen=50)])),
+                                 sim=[dict(nobj=3, caps="Caps3", num=1500, simlen=40), dict(nobj=4, caps="Caps3", num=1000, simlen=50)])),
     "dtor16": dict(ops="OpsDtor", menu="MenuC16", profile="dtor16",
                    invs=["MC_C16", "MC_C02", "MC_C06"],
                    quick=dict(mc=[dict(nobj=2, caps="CapsQ")],
                               sim=[dict(nobj=3, caps="Caps3", num=600, simlen=30)]),
                    thorough=dict(mc=[dict(nobj=2, caps="CapsM"), dict(nobj=3, caps="CapsQ", ops="OpsDtorT")],
-                                 sim=[dict(nobj=3, caps="Caps3", num=3000, simlen=40), dict(nobj=4, caps="Caps3", num=2000, simlen=50)])),
+                                 sim=[dict(nobj=3, caps="Caps3", num=1500, simlen=40), dict(nobj=4, caps="Caps3", num=1000, simlen=50)])),
     "dtor05": dict(ops="OpsDtor", menu="MenuC05", profile="dtor05",
                    invs=["MC_C05", "MC_C02", "MC_C06"],
                    quick=dict(mc=[dict(nobj=2, caps="CapsQ")],
                               sim=[dict(nobj=3, caps="Caps3", num=600, simlen=30)]),
                    thorough=dict(mc=[dict(nobj=2, caps="CapsM"), dict(nobj=3, caps="CapsQ", ops="OpsDtorW")],
-                                 sim=[dict(nobj=3, caps="Caps3", num=3000, simlen=40), dict(nobj=4, caps="Caps3", num=2000, simlen=50)])),
+                                 sim=[dict(nobj=3, caps="Caps3", num=1500, simlen=40), dict(nobj=4, caps="Caps3", num=1000, simlen=50)])),
     "panic": dict(ops="OpsDtor", menu="MenuPanic", profile="panic",
                   invs=["MC_C11"],
                   quick=dict(mc=[dict(nobj=2, caps="CapsQ")],
                              sim=[dict(nobj=3, caps="Caps3", num=600, simlen=30)]),
                   thorough=dict(mc=[dict(nobj=2, caps="CapsM"), dict(nobj=3, caps="CapsQ", ops="OpsDtorQ")],
-                                sim=[dict(nobj=3, caps="Caps3", num=3000, simlen=40), dict(nobj=4, caps="Caps3", num=2000, simlen=50)])),
+                                sim=[dict(nobj=3, caps="Caps3", num=1500, simlen=40), dict(nobj=4, caps="Caps3", num=1000, simlen=50)])),
     "cpanic": dict(ops="OpsCPanic", menu="MenuPanic", profile="cpanic",
                    invs=["MC_C11"],
                    quick=dict(mc=[dict(nobj=2, caps="CapsQ")],
                               sim=[dict(nobj=3, caps="Caps3", num=400, simlen=30)]),
                    thorough=dict(mc=[dict(nobj=2, caps="CapsM"), dict(nobj=3, caps="CapsQ", ops="OpsCPanicT")],
-                                 sim=[dict(nobj=3, caps="Caps3", num=2500, simlen=40), dict(nobj=4, caps="Caps3", num=3000, simlen=50)])),
+                                 sim=[dict(nobj=3, caps="Caps3", num=1200, simlen=40), dict(nobj=4, caps="Caps3", num=1500, simlen=50)])),
     "consume": dict(ops="OpsConsume", menu="MenuPlain", profile="consume",
                     invs=["MC_C12", "MC_C01", "MC_C03"],
                     quick=dict(mc=[dict(nobj=2, caps="CapsCE")],
                                sim=[dict(nobj=3, caps="CapsCE3", num=600, simlen=30)]),
                     thorough=dict(mc=[dict(nobj=2, caps="CapsCE"), dict(nobj=3, caps="CapsQ", ops="OpsConsumeQ")],
-                                  sim=[dict(nobj=3, caps="CapsCE3", num=3000, simlen=40), dict(nobj=4, caps="CapsCE3", num=2000, simlen=50)])),
+                                  sim=[dict(nobj=3, caps="CapsCE3", num=1500, simlen=40), dict(nobj=4, caps="CapsCE3", num=1000, simlen=50)])),
     "stale": dict(ops="OpsCore", menu="MenuPlain", profile="stale",
                   invs=["MC_C13x", "MC_C06", "MC_C08", "MC_C04"],
                   quick=dict(mc=[dict(nobj=2, caps="CapsS")],
                              sim=[dict(nobj=2, caps="CapsS3", num=500, simlen=25), dict(nobj=3, caps="CapsS", num=500, simlen=30)]),
                   thorough=dict(mc=[dict(nobj=2, caps="CapsS3"), dict(nobj=3, caps="CapsS", ops="OpsCoreT")],
-                                sim=[dict(nobj=3, caps="CapsS3", num=3000, simlen=40), dict(nobj=4, caps="CapsS", num=2000, simlen=50)])),
+                                sim=[dict(nobj=3, caps="CapsS3", num=1500, simlen=40), dict(nobj=4, caps="CapsS", num=1000, simlen=50)])),
 }
 
 FAMILIES["elide"] = dict(
@@ -469,7 +469,7 @@ FAMILIES["elide"] = dict(
     quick=dict(mc=[dict(nobj=2, caps="CapsE")],
                sim=[dict(nobj=2, caps="CapsE3", num=500, simlen=25), dict(nobj=3, caps="CapsE", num=500, simlen=30)]),
     thorough=dict(mc=[dict(nobj=2, caps="CapsE3"), dict(nobj=3, caps="CapsE", ops="OpsCoreT")],
-                  sim=[dict(nobj=3, caps="CapsE3", num=3000, simlen=40), dict(nobj=4, caps="CapsE", num=2000, simlen=50)]))
+                  sim=[dict(nobj=3, caps="CapsE3", num=1500, simlen=40), dict(nobj=4, caps="CapsE", num=1000, simlen=50)]))
 
 FAMILIES["order"] = dict(
     ops="OpsOrder", menu="MenuPlain", profile="order", emit_out=True,
@@ -477,7 +477,7 @@ FAMILIES["order"] = dict(
     quick=dict(mc=[dict(nobj=2, caps="CapsO")],
                sim=[dict(nobj=3, caps="Caps3", num=300, simlen=30), dict(nobj=4, caps="Caps3", num=300, simlen=40)]),
     thorough=dict(mc=[dict(nobj=2, caps="CapsL"), dict(nobj=3, caps="CapsO3")],
-                  sim=[dict(nobj=3, caps="Caps3", num=2000, simlen=40), dict(nobj=4, caps="Caps3", num=2000, simlen=50),
+                  sim=[dict(nobj=3, caps="Caps3", num=2000, simlen=40), dict(nobj=4, caps="Caps3", num=1000, simlen=50),
                        dict(nobj=5, caps="Caps3", num=1000, simlen=60)]))
 
 FAMILIES["std"] = dict(
@@ -486,7 +486,7 @@ FAMILIES["std"] = dict(
     quick=dict(mc=[dict(nobj=2, caps="CapsQ", ops="OpsStdQ")],
                sim=[dict(nobj=3, caps="Caps3", num=500, simlen=30, ops="OpsStdM"), dict(nobj=4, caps="Caps3", num=300, simlen=40, ops="OpsStdM")]),
     thorough=dict(mc=[dict(nobj=2, caps="CapsM"), dict(nobj=3, caps="CapsQ", ops="OpsStdT")],
-                  sim=[dict(nobj=3, caps="Caps3", num=3000, simlen=40, ops="OpsStdM"), dict(nobj=4, caps="Caps3", num=2000, simlen=50, ops="OpsStdM"),
+                  sim=[dict(nobj=3, caps="Caps3", num=1500, simlen=40, ops="OpsStdM"), dict(nobj=4, caps="Caps3", num=1000, simlen=50, ops="OpsStdM"),
                        dict(nobj=5, caps="Caps3", num=2000, simlen=60, ops="OpsStdM")]))
 
 # every adoption graph on N objects (each ordered pair recorded at most once/twice), every
@@ -506,7 +506,7 @@ REQUIRED_ACTIONS["graph"] = ["StepMarkO", "OpEdge", "StepOrphan"]
 
 TIERS = {
     "quick": dict(drive=dict(scripts=240, length=60, nobj=5), chunks=6, mc_timeout=900),
-    "thorough": dict(drive=dict(scripts=2000, length=150, nobj=7), chunks=14, mc_timeout=7200),
+    "thorough": dict(drive=dict(scripts=1000, length=150, nobj=7), chunks=14, mc_timeout=7200),
 }
 
 PROPS = {
